@@ -415,6 +415,29 @@ func c13KMACRelated(run *mon.Run) {
 					mk("many-keys", append(append([]byte{}, K...), c...), C, 32)
 				}
 			}
+			// key and customizer handed over in ONE pair of buffers that the caller refills between
+			// constructions (same lengths, different contents, then other lengths)
+			{
+				kb, cb := make([]byte, 64), make([]byte, 16)
+				for i := 0; i < 12; i++ {
+					kl, cl := 32, 8
+					if i >= 6 {
+						kl, cl = 16+i, i
+					}
+					copy(kb, mon.RandBytes(r, 64))
+					copy(cb, mon.RandBytes(r, 16))
+					if i%3 == 2 {
+						copy(kb, all[len(all)-1].key) // same key as the previous instance, other customizer
+					}
+					mk("reused-argument-buffers", kb[:kl], cb[:cl], []int{32, 128}[i%2])
+				}
+				for i := range kb {
+					kb[i] = 0xEE
+				}
+				for i := range cb {
+					cb[i] = 0xEE
+				}
+			}
 			ok := true
 			for i := 0; i < len(all) && ok; i++ {
 				ok = judge(all[i], "when judged after all related instances were created")
